@@ -160,10 +160,9 @@ def pl (k : Kind) (obj : String) (ctx : List String) : Site := ⟨k, obj, .na, .
 def skeleton : CUnit where
   funcs := [
     ⟨"ringbuf_init", [                                  -- not part of the concurrent protocol (runs before the threads exist)
-        pl .plainWrite "rb->bufp" [], pl .plainWrite "rb->buf_len" []]⟩,
+        pl .call "memset" [], pl .plainWrite "rb->bufp" [], pl .plainWrite "rb->buf_len" []]⟩,
     ⟨"ringbuf_get", [
-        sc .load "rb->readi" [],                        -- C1
-        pl .plainRead "rb->buf_len" [],                 --     assert(readi < buf_len)
+        sc .load "rb->readi" [],                        -- C1   (the assert is compiled out for the extraction: -DNDEBUG)
         sc .load "rb->writei" ["if#1.cond"],            -- C2
         pl .plainRead "rb->bufp" [],                    -- C3  d = rb->bufp[readi]
         pl .plainRead "rb->bufp[]" [],
